@@ -147,7 +147,7 @@ func TestVerifC14(t *testing.T) {
 	p := gDefaultProfile
 	p.PFresh = 0.12
 	p.WLeave = 6
-	n := r.N(800, 20000)
+	n := r.N(600, 20000)
 	seen := func(w *gWorld, ev *gEvent) { r.Seen("group_states", w.stateSig(ev.After)) }
 	mk := func() *c14Obs {
 		return &c14Obs{r: r, completed: map[string]bool{}, leaderOf: map[string]string{}, leaderSynced: map[string]bool{}, sawWait: map[string]bool{}}
